@@ -130,6 +130,19 @@ def evaluate(item):
             sub = os.path.join(root, wsrel)
             if os.path.isdir(sub):
                 calls["get_project(subdir)"] = lambda: signac.get_project(sub)
+
+            def in_cwd(f):
+                def g():
+                    os.chdir(root)
+                    try:
+                        return f()
+                    finally:
+                        os.chdir(base)
+                return g
+            # the same entry points with the path left at its default (the current directory)
+            calls["Project() in cwd"] = in_cwd(lambda: signac.Project())
+            calls["get_project() in cwd"] = in_cwd(lambda: signac.get_project())
+            calls["init_project() in cwd"] = in_cwd(lambda: signac.init_project())
             for cname, fn in calls.items():
                 n += 1
                 try:
